@@ -124,9 +124,19 @@ fn run_n(ctr0: u32, nex: usize, ops: &str) -> String {
 fn run_a(cursor: u16, used: &str) -> String {
     let crypto = test_only_crypto();
     let matter = e2e::new_matter(e2e::dev_det(None, None), true);
+    // an id with the suffix `e` belongs to a session that is expired but still in the table
+    // (it still matches incoming messages and serves its exchanges, so its id is still in use)
     for (i, u) in used.split(',').filter(|x| !x.is_empty()).enumerate() {
-        let u: u16 = u.parse().unwrap();
+        let expired = u.ends_with('e');
+        let u: u16 = u.trim_end_matches('e').parse().unwrap();
         e2e::preset_case_session(&matter, &crypto, A_NODE, B_NODE + i as u64, u, 7, e2e::node_addr(B), 1, Default::default()).unwrap();
+        if expired {
+            matter.with_state(|st| {
+                let sess = st.verif_sessions();
+                let id = sess.iter().find(|s| s.get_local_sess_id() == u).map(|s| s.id()).unwrap();
+                sess.get(id).unwrap().verif_set_expired(true);
+            });
+        }
     }
     matter.with_state(|st| {
         let sess = st.verif_sessions();
@@ -496,7 +506,15 @@ fn generate(tier: &str, seed: u64) -> Vec<String> {
                 used.push(u);
             }
         }
-        cases.push(format!("A {} {} {}", nid(), cursor, used.iter().map(|x| x.to_string()).collect::<Vec<_>>().join(",")));
+        cases.push(format!(
+            "A {} {} {}",
+            nid(),
+            cursor,
+            used.iter()
+                .map(|x| if rng.chance(1, 3) { format!("{}e", x) } else { x.to_string() })
+                .collect::<Vec<_>>()
+                .join(",")
+        ));
     }
     // --- exchange id allocator
     for _ in 0..(if thorough { 600 } else { 120 }) {
